@@ -22,7 +22,7 @@ IMPORTS = ["unit_scaling.functional", "unit_scaling.scale"]
 REQUIRED_MONITORS = ["closed-form:outputs-compared", "closed-form:input-grads-compared", "hook:branch-output-grads", "spy:weights-checked",
                      "apply:bit-compared", "gradcheck:run"]
 REQUIRED_REACH = {"functional.py": ["residual_split", "residual_add", "residual_apply"]}
-MIN_NONTRIVIAL = {"quick": 800, "thorough": 20000}
+MIN_NONTRIVIAL = {"quick": 800, "thorough": 50000}
 BRANCHES = ["linear", "tanh", "gelu_linear", "u_linear", "u_gelu", "sin_scale", "u_silu_linear", "constant", "detached", "inplace_relu_linear", "inplace_mul"]
 
 
